@@ -18,14 +18,15 @@ META = {
                  "the TLC Trace spec; a slice failing the completeness predicate is a candidate that is decided by "
                  "goldmark's conversion of the real output (element structure and text, parsed in TLA+)",
     "level": "model_checking",
-    "level_text": "TLC checks, for every string of length <= 4 (quick) / 5 (thorough) over the 19-symbol Markdown alphabet "
-                  "of DESIGN 7/C26 and every string of length <= 5 / 6 over a 7-symbol white-space alphabet with TAB, that "
-                  "the transcribed paragraph escaper round-trips through the CommonMark unescape reference, that the "
-                  "repaired transcription is escape-complete and confines every code-block line, and that the as-found "
-                  "transcription falls short exactly on the two demonstrated shapes (lone CR in a code block; tab kept at "
-                  "the start of a later line). The exported strings, a dictionary of Markdown constructs and seeded "
-                  "fragment mixes are rendered by Template.Run in 8 placements; TLC judges each real slice: round trip "
-                  "and code-block confinement decide directly, completeness decides only 'pass'.",
+    "level_text": "TLC checks, for every string of length <= 4 over the 19-symbol Markdown alphabet of DESIGN 7/C26, every string "
+                  "of length <= 5 over its 16-symbol sub-alphabet (thorough) and every string of length <= 5 (quick) / 6 "
+                  "(thorough) over a 7-symbol white-space alphabet with TAB, that the transcribed paragraph escaper round-trips "
+                  "through the CommonMark unescape reference, that the repaired transcription is escape-complete and confines "
+                  "every code-block line under both line-ending conventions, and that the as-found transcription falls short "
+                  "exactly on the demonstrated shapes (CR in a code block; tab kept at the start of a later line). The exported "
+                  "strings (length <= 3 quick / <= 4 thorough over the 19 symbols, plus white-space, core-alphabet and dictionary "
+                  "strings) and seeded fragment mixes are rendered by Template.Run in 8 placements; TLC judges each real slice: "
+                  "round trip and code-block confinement decide directly, completeness decides only 'pass'.",
     "level_note": "PARTIAL: 'introduces no Markdown or HTML element' is decided by a sufficient condition written in the "
                   "spec (escape completeness); CommonMark's inline/block parsing algorithm is not specified in TLA+. A real "
                   "output failing the sufficient condition is reported only if goldmark (configured as cmd/scriggo does: "
@@ -33,10 +34,9 @@ META = {
                   "template did not make or different text - the one family whose last word on a candidate is an external "
                   "parser (DESIGN section 8). Records meeting the sufficient condition are never shown to goldmark by the "
                   "verdict predicate. Trusted: TLC, the Json module, the Go driver (8 fixed templates, slicing, goldmark "
-                  "call, no expectation), goldmark for candidates. Lone CR as a line ending is judged as CommonMark 2.1 "
-                  "defines it (goldmark itself does not split lines at a lone CR - see the family report). Exhaustive only "
-                  "to the stated lengths/alphabets; thorough replays length 5 in the paragraph, line-start and both "
-                  "code-block placements and length <= 4 in all 8; native.HTML / Markdown-typed values (allowHTML path, "
+                  "call, no expectation), goldmark for candidates. Code-block confinement is judged under both line-ending "
+                  "conventions (CommonMark 2.1: LF, CR LF, lone CR; and LF-only, which is what goldmark does), reading documented in the spec. Exhaustive only "
+                  "to the stated lengths/alphabets; native.HTML / Markdown-typed values (allowHTML path, "
                   "CDATA, comments) and the lexer's own detection of code-block context in template source are not covered.",
     "design_ref": "7/C26",
 }
@@ -66,10 +66,13 @@ MC_INVS = ["RoundTripFound", "RoundTripFixed", "CompleteFixed", "CompleteFoundEx
            "CodeFoundExtent", "FixConservative"]
 PAR = max(2, min(12, rig.NCPU * 3 // 4))       # driver+Trace shards processed by concurrent TLC processes
 ALLPL = ["para", "start", "cont", "list", "heading", "quote", "codetab", "codesp"]
-RULE = ("every string of length <= GenLen over the 19-symbol Markdown alphabet, every string of length <= GenWs over the "
-        "7-symbol white-space alphabet (with TAB), a 49-string dictionary of Markdown constructs (all exported by TLC) and "
-        "seeded fragment mixes, each shown in 8 placements (strings of the longest length: 4 placements in the thorough "
-        "tier); non-trivial = the rendered slice differs from the input")
+CORE = ["para", "start", "heading", "codetab"]
+RULE = ("every string of length <= GenLen over the 19-symbol Markdown alphabet, of length <= GenWs over the 7-symbol "
+        "white-space alphabet (with TAB), of length <= GenCore over the 8-symbol core alphabet (with ';'), a 49-string "
+        "dictionary of Markdown constructs (all exported by TLC) and seeded fragment mixes, each shown in 8 placements "
+        "(thorough tier: the strings of length GenLen of the whole alphabet and of length GenCore of the core alphabet in 4 "
+        "placements: para, start, heading, codetab); non-trivial = the rendered slice differs from the input; "
+        "distinct = distinct (placement, string)")
 
 
 def case_of(o):
@@ -171,7 +174,7 @@ def second_pass(ctx, cands):
 
 
 def run(ctx, replay_case=None):
-    consts = {"MaxLen": ctx.pick(4, 5), "WsLen": ctx.pick(5, 6), "GenLen": ctx.pick(3, 4), "GenWs": ctx.pick(4, 5),
+    consts = {"MaxLen": 4, "Len16": ctx.pick(4, 5), "WsLen": ctx.pick(5, 6), "GenLen": ctx.pick(3, 4), "GenWs": ctx.pick(4, 5),
               "GenCore": ctx.pick(3, 5)}
     extra = ctx.pick(600, 8000)
     phase, t0 = {}, time.time()
@@ -210,6 +213,11 @@ def run(ctx, replay_case=None):
     lap("model_check_and_export")
     # 2+3. replay into the real templates and judge, shard by shard (PAR concurrent driver -> TLC pipelines)
     allc = rig.read_ndjson(cases)
+    if replay_case is None and not ctx.quick:
+        # thorough: the longest strings of the whole-alphabet and core-alphabet slices are shown in 4 placements
+        for c in allc:
+            if (c.get("k") == "a" and len(c["s"]) == consts["GenLen"]) or (c.get("k") == "c" and len(c["s"]) == consts["GenCore"]):
+                c["pl"] = CORE
     allc.sort(key=lambda c: c["id"])
     weight = lambda c: len(c.get("pl") or ALLPL)
     per = ctx.pick(12000, 120000)          # records per shard
